@@ -179,7 +179,7 @@ C["C17"]["harnesses"] += [
     H("ZZWebseedCap", "torrent", "real newTorrent with 0..12 web-seed sources and WebseedMaxSources 0..12: no crash, at most the maximum kept, nothing dropped within the limit", T(45, 900, flags=["-nospawn"]), T(45, 900, flags=["-nospawn"]), replay="model"),
 ]
 
-DIAL = H("ZZDialAdmission", "torrent", "every sequence of 4 events on a downloading torrent with MaxPeerDial 1..2 and the blocklist 10.0.1.0/24 enabled - tracker reply with one of 6 addresses (two ports of one host, another host, a blocked host, the own listening address, a zero port), outgoing handshake done (ok/failed), a connected peer delivering a piece that fails the hash check, a disconnect, an incoming connection (3 hosts): every dial goes to an address with non-zero port that is not the client's own, not blocked, not banned (incl. the peer banned by this very event), not already connected or connecting; at most MaxPeerDial outgoing connections; one connection per IP; the corrupt peer is disconnected and banned; blocked/banned/duplicate incoming connections are closed", T(40, 1800, 6, 6, flags=["-nospawn"]), T(40, 1800, 6, 6, flags=["-nospawn"]), replay="model")
+DIAL = H("ZZDialAdmission", "torrent", "every sequence of 4 events on a downloading torrent with MaxPeerDial 1..2 and the blocklist 10.0.1.0/24 enabled - tracker reply with one of 6 addresses (two ports of one host, another host, a blocked host, the own listening address, a zero port), outgoing handshake done (ok/failed), a connected peer delivering a piece that fails the hash check, a disconnect, an incoming connection (3 hosts), completion, stop (the last two end the sequence): every dial goes to an address with non-zero port that is not the client's own, not blocked, not banned (incl. the peer banned by this very event), not already connected or connecting; at most MaxPeerDial outgoing connections; one connection per IP; the corrupt peer is disconnected and banned; blocked/banned/duplicate incoming connections are closed; an IP is marked connected only while a connection or handshake to it exists, also after completion and after stop; a stopped torrent has no peers, handshakes or candidate addresses", T(40, 1800, 6, 6, flags=["-nospawn"]), T(40, 1800, 6, 6, flags=["-nospawn"]), replay="model")
 C["C18"]["harnesses"] += [
     DIAL,
     H("ZZDialAdmission5", "torrent", "5 events", None, T(40, 7000, 32, 8, flags=["-nospawn"]), replay="model"),
@@ -190,6 +190,7 @@ C["C18"]["harnesses"] += [
 ]
 C["C18"]["assumptions"] += ["peer priority (CRC32-C of the address pair) replaced by an arbitrary function of the address (addrlist harness) / an injective concrete function (dial harness)", "torrent fixture for dial admission: real newTorrent/handlers, handshaker goroutines not run (their results are events)", "announce-to-blocked-tracker (resolver) not covered", "package unique modelled by an engine-side interning table"]
 C["C01"]["harnesses"] += [DIAL]
+C["C04"]["harnesses"] += [DIAL]
 C["C17"]["harnesses"] += [
     DIAL,
     H("ZZWriterQueueCap", "internal/peerconn/peerwriter", "real PeerWriter.Run + message writer on a connection that takes a frame only when the harness lets it; every sequence of 5 operations (queue an upload, cancel a queued / written / never-made request, choke, connection takes a frame) with a limit of 1..2 queued requests, fast extension on/off: queued piece messages <= limit, the writer's counter == piece messages actually queued (never negative)", T(45, 1800, 4, 6), T(45, 1800, 4, 6)),
